@@ -134,12 +134,14 @@ func C17(ctx *Ctx) {
 			chanVals = append(chanVals, absint.NewSym(8, a, false))
 		}
 		var packArgs []absint.Val
+		nPack := 0
 		ip.Hooks.OverrideCall = func(ip *absint.Interp, st *absint.State, f *ssa.Function, a []absint.Val) (absint.Val, bool) {
 			switch f {
 			case toRGB:
 				return &absint.Tuple{E: chanVals}, true // justified by the pack rule
 			case toC15:
 				packArgs = a
+				nPack++
 				return nil, false
 			}
 			return nil, false
@@ -178,6 +180,37 @@ func C17(ctx *Ctx) {
 				R.Pass("shape", "Luminosity", pos, "floor((r+g+b)/3)")
 			}
 			continue
+		}
+		if nPack != 1 && nBad == 0 {
+			// the packing call is not reached exactly once on one path (a loop over the
+			// channels with the limit test inside splits the interpretation into paths):
+			// compare the merged result with the prescribed colour instead
+			if rv, ok := res.(*absint.Int); ok {
+				ro := absint.Ops{In: absint.NewInterner()}
+				k16 := func(v uint64) *absint.Int { return absint.NewConst(16, v, false) }
+				sym := func(name string, w int, hi uint64) *absint.Int {
+					return absint.NewSym(w, ro.In.Atom(name, w, hi), false)
+				}
+				m16 := ro.Convert(sym("m", 8, 0xFF), 16, false, false)
+				d16 := ro.Convert(ro.Add(absint.NewConst(8, 1, false), sym("d-1", 8, 0xFE)), 16, false, false)
+				want := k16(0)
+				for i, n := range []string{"R", "G", "B"} {
+					q := ro.Quo(ro.Mul(ro.Convert(sym(n, 8, 31), 16, false, false), m16), d16, false)
+					b := &absint.Bool{K: absint.TriTop, Cmp: &absint.CmpInfo{Op: ">", X: q, Y: k16(31)}}
+					key, _ := absint.GateOf(b)
+					ro.In.NoteCond(key, b)
+					lim := ro.Gamma(key, k16(31), q)
+					want = ro.Or(want, ro.Shl(lim, k16(uint64(5*i))))
+				}
+				if same, why := sameTerm(rv, ip.In.Conds, want, ro.In.Conds); same {
+					for _, n := range []string{"R", "G", "B"} {
+						R.Pass("shape", "MulDiv:channel-"+n, pos, "min(31, floor("+n+"*m/d)) of its own channel (result compared with the prescribed colour path by path)")
+					}
+				} else {
+					R.Fail("shape", "MulDiv:result", pos, "the result is not pack(min(31, floor(ch*m/d)) per channel): "+why)
+				}
+				continue
+			}
 		}
 		if len(packArgs) != 3 {
 			R.Fail("shape", "MulDiv:pack", pos, "MulDiv does not pack its result with ToColor15(r,g,b)")
